@@ -15,6 +15,7 @@ EXPLANATION = (
     "tail is read on the validate path and compared, with a Monitor::error behind the comparison; (3) coverage "
     "table: band heads (Band::open in validate_bands), index hunks, and blocks (hash check in full mode, presence "
     "and referenced-length comparisons in Archive::validate) each have a reporting site."
+    " Added in later rounds: the hunk-count comparison covers all hunks present (C09.2b); the referenced-length maps record unseen blocks (C09.3i); the hunk listing hides no file (C09.3j); a block is credited with its decompressed length (C09.3k)."
 )
 UNDECIDED = ["absence of false positives on healthy archives (value-level)",
              "whether every possible corruption of a block changes its hash (trusted: BLAKE2b)"]
